@@ -203,7 +203,7 @@ class Judge:
             self.check_error_location(schema, node, cfg, version, words, model)
         if bad:
             self.report(node, cfg, version, bad, origin)
-        elif res.evaluations % 40 == 0:
+        elif len(res.samples) < 2:
             res.sample({'model': M.text(node) + K.cfg_text(cfg), 'version': version,
                         'words': len(words), 'accepted': acc, 'rejected': rej})
 
